@@ -84,6 +84,8 @@ impl<S> MergeUnbounded<S> {
                 };
                 next.push(stream);
                 self.groups.push(next);
+                #[cfg(futures_buffered_verif)]
+                crate::verif::hit(crate::verif::Hit::GroupCreated);
             }
         }
     }
@@ -96,6 +98,21 @@ impl<S> MergeUnbounded<S> {
     /// Returns the number of streams currently in the set.
     pub fn len(&self) -> usize {
         self.groups.iter().map(|g| g.streams.len()).sum()
+    }
+}
+
+#[cfg(futures_buffered_verif)]
+impl<S> MergeUnbounded<S> {
+    /// Read-only view for the verification harness: `(cursor, [(capacity, len) per group])`.
+    #[doc(hidden)]
+    pub fn __verif_layout(&self) -> (usize, Vec<(usize, usize)>) {
+        (
+            self.poll_next,
+            self.groups
+                .iter()
+                .map(|g| (g.streams.capacity(), g.streams.len()))
+                .collect(),
+        )
     }
 }
 
@@ -121,6 +138,8 @@ impl<S: Stream + Unpin> Stream for MergeUnbounded<S> {
                 Poll::Ready(None) => {
                     let group = groups.remove(*poll_next);
                     debug_assert!(group.streams.is_empty());
+                    #[cfg(futures_buffered_verif)]
+                    crate::verif::hit(crate::verif::Hit::GroupDiscarded);
 
                     if groups.is_empty() {
                         // group should contain at least 1 set
@@ -131,6 +150,8 @@ impl<S: Stream + Unpin> Stream for MergeUnbounded<S> {
                     // we do not want to drop the last set as it contains
                     // the largest allocation that we want to keep a hold of
                     if *poll_next == groups.len() {
+                        #[cfg(futures_buffered_verif)]
+                        crate::verif::hit(crate::verif::Hit::GroupRotated);
                         groups.push(group);
                         *poll_next = 0;
                     }
